@@ -20,3 +20,15 @@ reg('C05', 'exploration', 'online pushdown/episode checker over testSetUp/testTe
     'All 2954 sequences over 14 outcome kinds up to length 3 (thorough: + 6000 sampled length 4-5) inside random layer stacks whose layers carry both/one/none of the per-test hooks, x --repeat, -x, --buffer, a sample on every installed CPython 3.9-3.13; each episode SU* T* TD* is judged for exact hook set, bases-first, exact mirror, balance around tests that never start, silence outside the stack.',
     'Exhaustive only for sequence length <=3 within one class layer stack <=4 layers; other interpreters are sampled.',
     'DESIGN.md 2/C05')
+reg('C09', 'exploration', 'real runs + --list-tests of generated nested-suite worlds compared with a nearest-declaration reference model; layer attribution by the layer state machine over trace facts',
+    'Worlds whose test_suite() nests suites to depth <=3, every suite and TestCase class independently declaring layer (none / one of <=3 / unit) and level (none, -1..3), are run for real and listed under option vectors over --at-level {-1,0,1,2,3,10}, --all, --only-level {-1,0,1,2,5}, the four -u/-f combinations and --layer patterns; executed ids, the layer state each ran under, the Running-headers and the listing must equal the model.',
+    'Reference model (vworld.iter_tests/expected_tests) is trusted; declarations are sampled randomly, not enumerated; depth <=3.',
+    'DESIGN.md 2/C09')
+reg('C03', 'exploration', 'cross-mode differential monitoring: per-pid test facts of sequential, --list-tests, -j N and resumed-child executions of one world/option vector vs reference selection model',
+    'Generated multi-module worlds with nested suites, levels, 1-4 layers (NotImplementedError tear-downs force resumed children) are run under option vectors over -t/-m/--layer pattern lists, level switches, -u/-f, --repeat, --shuffle-seed in three modes; the executed multiset must equal model x repeat with each test in exactly one pid under its own layer, the listing must equal the model per layer and match the sequential execution order, a list run must produce no test/layer fact, and -j N must execute the same multiset with the same verdict.',
+    'Reference model trusted; decorator-skipped tests leave no fact and are compared through the listing only; N and patterns sampled.',
+    'DESIGN.md 2/C03')
+reg('C10', 'exploration', 'runtime contract + direct oracle on the real order_by_bases over bounded-exhaustive layer DAGs; differential CLI runs across PYTHONHASHSEED / definition-order variants',
+    'Every labelled DAG on <=3 (quick; + a 48-DAG sample of n=4) / <=4 (thorough, all 543) nodes as instance layers and as class layers where a C3 MRO exists, x all relative namings x optional real UnitTests node x every requested subset x every input permutation: result must be a duplicate-free permutation, unit first, requested bases before derived, identical for all permutations. Real CLI runs of one world under permuted module assignment, layer definition order, file creation order and 9 hash seeds (run, --list-tests, -j N) must print identical header sequences, each header once.',
+    'Layers have distinct qualified names; class DAGs limited to those Python can express; >4 nodes sampled.',
+    'DESIGN.md 2/C10')
